@@ -8,6 +8,8 @@ def plan(tier):
         Cond("vf.h.h_order", "h_nearest", case=0, timeout=600, label="H01c-nearest-entity", weight=5),
         Cond("vf.h.h_req", "h_price_order", case=1, timeout=600, label="H01d-price-keys", weight=5),
     ]
+    for r in (1, 2):
+        conds.append(Cond("vf.h.h_queue", "h_fifo", case=r, timeout=900, env={"VF_ORACLE": "C01"}, label=f"H01f-update-order[v0 role {r}]", weight=40))
     for case in range(8):
         conds.append(Cond("vf.h.h_order", "h_step", case=case, timeout=900, label=f"H01e-step[v0cell={case // 2},v1cell={case % 2}]", weight=40))
     conds.append(Cond("vf.sites", "inventory", case=0, timeout=120, engine="smt", label="H01-site-inventory", weight=1))
@@ -17,7 +19,7 @@ def plan(tier):
         "explanation": "C01: a run is a composition of deterministic functions; the only process-dependent inputs are the iteration orders of hash-based containers (and uuid tags, exempt). "
                        "For every order-sensitive site the unordered container is replaced by a view whose iteration order is a solver-chosen permutation and the real function is run under two "
                        "permutations on the same symbolic state: equal results on all paths. Sites: charger ranking over on_shift_access_chargers, nearest_entity over the k_ring cell set, "
-                       "price keys naming one station twice, and end-to-end StepSimulation.update (ChargingFleetManager + Dispatcher) with fleet set and plug set permuted. "
+                       "price keys naming one station twice, the order in which SimulationState.vehicles yields its values to perform_vehicle_state_updates, and end-to-end StepSimulation.update (ChargingFleetManager + Dispatcher) with fleet set and plug set permuted. "
                        "An AST inventory of iterations over unordered containers in nrel/hive is regenerated on every run and listed (covered / insensitive by form / exempt / uncovered).",
         "entry_points": ["assignment_ops.nearest_shortest_queue_ranking", "H3Ops.nearest_entity", "ChargingPriceUpdate.update/_map_to_station_ids", "StepSimulation.update",
                          "Dispatcher.generate_instructions", "ChargingFleetManager.generate_instructions", "instruction_generator_ops.generate_instructions"],
